@@ -173,6 +173,11 @@ func New(opts Options) (*World, error) {
 	val := cmttypes.NewValidator(valPriv.PubKey(), 1)
 	valSet := cmttypes.NewValidatorSet([]*cmttypes.Validator{val})
 	delegator := authtypes.NewBaseAccount(Addr("delegator"), nil, 0, 0)
+	authorityAddr, err := sdk.AccAddressFromBech32(Authority)
+	if err != nil {
+		return nil, err
+	}
+	authorityAcc := authtypes.NewBaseAccount(authorityAddr, nil, 1, 0)
 
 	var balances []banktypes.Balance
 	for i := 0; i < NumChannels; i++ {
@@ -197,7 +202,7 @@ func New(opts Options) (*World, error) {
 		Coins:   sdk.NewCoins(sdk.NewCoin(sdk.DefaultBondDenom, sdkmath.NewInt(1_000_000))),
 	})
 
-	gen, err = sims.GenesisStateWithValSet(w.Cdc, gen, valSet, []authtypes.GenesisAccount{delegator}, balances...)
+	gen, err = sims.GenesisStateWithValSet(w.Cdc, gen, valSet, []authtypes.GenesisAccount{delegator, authorityAcc}, balances...)
 	if err != nil {
 		return nil, err
 	}
